@@ -118,6 +118,12 @@ def rule_weightnorm(ctx):
                 why = "the normaliser %s is not the sum of the filtered weights %s" % (tm.show(tot, 3), tm.show(w, 3))
     yield ob(R, f, "chord.weighted_accuracy:form", good, why, node=main[0].node)
     yield ob(R, f, "chord.weighted_accuracy:degenerate-zero", len(zeros) >= 2 and all(lit(z.term) == 0 for z in zeros), "all-zero weights, no comparable entry and zero comparable weight return 0 (%d exits)" % len(zeros))
+    # the degenerate exits test *exact* zero (a tolerance such as np.isclose would break invariance under rescaling the weights)
+    exact = True
+    for z in zeros:
+        c, p = symeval.pc_conds(z.pc)[-1]
+        exact = exact and p and c.op == "cmp" and c.a[0] == "==" and (tm.is_const(c.a[1], 0) or tm.is_const(c.a[2], 0))
+    yield ob(R, f, "chord.weighted_accuracy:exact-zero-tests", exact, "each degenerate exit is guarded by an exact `== 0` test (scale-free)")
 
 
 def rule_segmerge(ctx):
@@ -201,7 +207,18 @@ def rule_frameonly(ctx):
         yield ob(R, f, "%s:same-frame-size" % q, good, "reference and estimate are sampled with the same frame_size, each with its own labels")
 
 
+def rule_nceguard(ctx):
+    """Shared with C01: nce's zero-normaliser exits test the entropy normaliser itself (which does not depend on how intervals are cut)."""
+    from . import c01
+
+    for o in c01.rule_guardtable(ctx):
+        if o.construct.startswith("segment.nce"):
+            o.rule = "C12.NCEGUARD"
+            yield o
+
+
 RULES = [
+    ("C12.NCEGUARD", 2, rule_nceguard),
     ("C12.PIPELINE", 20, rule_pipeline),
     ("C12.WEIGHTNORM", 2, rule_weightnorm),
     ("C12.SEGMERGE", 4, rule_segmerge),
